@@ -1,3 +1,4 @@
 pub mod dom;
 pub mod field;
+pub mod lexer;
 pub mod walk;
